@@ -53,8 +53,35 @@ def handleRel (inp out : List String) : String :=
     reply same prop tags (m.str ++ " " ++ m.transpose.str ++ " " ++ m.str) (shw ab ++ " " ++ shw ba ++ " " ++ shw a'b)
   | _, _ => "ERR parse"
 
+def dimP : P Dim := do
+  let t ← tok
+  match t with
+  | "Empty" => pure .empty | "ZeroDimensional" => pure .zero
+  | "OneDimensional" => pure .one | "TwoDimensional" => pure .two
+  | _ => fail
+
+/-- `C01.dims <G> => <dimensions> <boundary_dimensions> <is_empty>` — the `HasDimensions` impls that feed
+`compute_disjoint` (the disjoint-envelope shortcut). For valid geometries the verdict also demands that they equal
+what the specification derives from point location (max dimension of the parts). -/
+def handleDims (inp out : List String) : String :=
+  let pout : P (Dim × Dim × Bool) := do let a ← dimP; let b ← dimP; let c ← bool; pure (a, b, c)
+  match P.run geometry inp, P.run pout out with
+  | some g, some (d, bd, e) =>
+    let same := d == dims g && bd == boundaryDims g && e == isEmptyEnum g
+    -- specification for valid geometries: what the matrix against a far-away point must show
+    let prop :=
+      if !inDomain g then "PASS" else
+      let m := relateSpec g (.point ⟨1000003, 1000033⟩)
+      if m.ie != d then "FAIL:dimensions-disagree-with-point-set"
+      else if m.be != bd then "FAIL:boundary-dimensions-disagree-with-point-set"
+      else "PASS"
+    reply same prop ("G=" ++ tagOf g ++ " dims=" ++ (dims g).str ++ (if inDomain g then "" else " invalid"))
+      ((dims g).str ++ " " ++ (boundaryDims g).str ++ " " ++ toString (isEmptyEnum g)) (String.intercalate " " out)
+  | _, _ => "ERR parse"
+
 def handle (op : String) (inp out : List String) : Option String :=
   match op with
+  | "C01.dims" => some (handleDims inp out)
   | "C01.rel" => some (handleRel inp out)
   | _ => none
 
